@@ -432,6 +432,13 @@ class SymReal:
             return q
         return self - q * o
 
+    def __and__(self, o):
+        if isinstance(o, int) and not isinstance(o, bool) and o >= 0 and (o & (o + 1)) == 0:
+            return self % (o + 1)        # mask 2^k - 1 on a non-negative integer: x & mask = x mod 2^k
+        return NotImplemented
+
+    __rand__ = __and__
+
     # rounding ----------------------------------------------------------------------------------
     def floor(self):
         return SymReal(z3.ToReal(z3.ToInt(self.t)))
